@@ -14,13 +14,12 @@ use std::sync::atomic::{AtomicBool, AtomicU32, Ordering};
 // ---------------- environment (D4) ----------------
 pub type BucketId = u16;
 pub type PartitionId = u16;
-pub const SEGMENT_HEADER_SIZE: usize = 48;
 #[derive(Clone, Copy, Debug, PartialEq, Eq)]
 pub struct Uuid(pub u8);
 #[derive(Clone, Copy, Debug, PartialEq, Eq)]
 pub struct StreamId(pub u8);
 #[derive(Debug)]
-pub enum WriteError { Io }
+pub enum WriteError { Io, EventsExceedSegmentSize }
 #[derive(Clone, Copy, Debug, PartialEq, Eq)]
 pub struct BucketSegmentId { pub bucket_id: BucketId, pub segment_id: u32 }
 impl BucketSegmentId { pub fn increment_segment_id(&self) -> Self { BucketSegmentId { bucket_id: self.bucket_id, segment_id: self.segment_id + 1 } } }
@@ -87,7 +86,15 @@ impl Instant { pub fn now() -> Instant { Instant } }
 #[derive(Debug)]
 pub struct AppendResult { pub ok: u8 }
 pub struct FullAppendResult { pub append: AppendResult, pub write_offset: u64, pub sync_rx: watch::Receiver<u64> }
-pub struct WriteOperation { pub partition_key: Uuid, pub partition_id: PartitionId, pub transaction_id: Uuid, pub events: u8, pub event_versions: u8, pub expected_partition_sequence: u8, pub unique_streams: usize, pub confirmation_count: u8 }
+pub struct WriteOperation { pub partition_key: Uuid, pub partition_id: PartitionId, pub transaction_id: Uuid, pub events: Events, pub event_versions: u8, pub expected_partition_sequence: u8, pub unique_streams: usize, pub confirmation_count: u8 }
+/// only the lengths of an event's variable parts matter to the size estimate
+pub struct Len(pub usize);
+impl Len { pub fn len(&self) -> usize { self.0 } }
+pub struct NewEvent { pub stream_id: Len, pub event_name: Len, pub metadata: Len, pub payload: Len }
+pub struct Events { pub items: [NewEvent; 2], pub n: usize }
+impl Events { pub fn iter(&self) -> std::slice::Iter<'_, NewEvent> { self.items[..self.n].iter() } }
+pub const RECORD_HEAD_SIZE: usize = 8;
+pub fn get_uuid_flag(u: &Uuid) -> bool { u.0 & 1 == 1 }
 pub struct Lsv; impl Lsv { pub fn len(&self) -> usize { 1 } }
 pub struct Batch { pub confirmation_count: u8 }
 /// what the harness needs to know about the run: where handle_write started, how it ended
@@ -98,6 +105,16 @@ pub static mut REPLY: Option<Result<(u64, u32), ()>> = None; // Ok((write_offset
 pub struct ReplyTx;
 impl ReplyTx { pub fn send(self, r: Result<FullAppendResult, WriteError>) -> Result<(), ()> { unsafe { REPLIES += 1; REPLY = Some(match r { Ok(f) => Ok((f.write_offset, f.sync_rx.chan)), Err(_) => Err(()) }); } Ok(()) } }
 
+//@item CONFIRMATION_HEADER_SIZE
+//@item RECORD_HEADER_SIZE
+//@item EVENT_HEADER_SIZE
+//@item COMMIT_SIZE
+//@item MAGIC_BYTES_SIZE
+//@item VERSION_SIZE
+//@item BUCKET_ID_SIZE
+//@item CREATED_AT_SIZE
+//@item PADDING_SIZE
+//@item SEGMENT_HEADER_SIZE
 //@item PendingIndex
 //@item WriterSet
 //@item WriterSet::sync
@@ -191,7 +208,7 @@ mod verif {
     /// roll-back of a failed write, the reply. With wsinv (above) P1 gives "released => fsynced": the appender waits on the
     /// channel of the segment its records went to, for the offset at which they end.
     #[kani::proof]
-    #[kani::unwind(4)]
+    #[kani::unwind(10)]
     fn ws_ack_handoff() {
         let mut ws = any_ws();
         kani::assume(ws.pending_indexes.len() <= 1 && ws.unflushed_events < 1000 && ws.bytes_since_sync < (1 << 40));
@@ -199,16 +216,29 @@ mod verif {
         kani::assume(seg >= 1 << 10 && seg <= 1 << 30 && ws.writer.write_offset <= seg as u64);
         ws.segment_size = seg;
         let write_offset = ws.writer.write_offset;
-        let events_size: usize = kani::any();
-        kani::assume(events_size <= seg && events_size + SEGMENT_HEADER_SIZE <= seg); // the EventsExceedSegmentSize check precedes the slice (units/U19)
+        let n: usize = kani::any();
+        kani::assume(n >= 1 && n <= 2);
+        let l: [usize; 8] = kani::any();
+        let mut i = 0;
+        while i < 8 { kani::assume(l[i] <= if i % 4 < 2 { 255 } else { 1 << 32 }); i += 1; }
+        let events = Events { items: [NewEvent { stream_id: Len(l[0]), event_name: Len(l[1]), metadata: Len(l[2]), payload: Len(l[3]) },
+                                      NewEvent { stream_id: Len(l[4]), event_name: Len(l[5]), metadata: Len(l[6]), payload: Len(l[7]) }], n };
+        let tx = Uuid(if n == 1 { 1 } else { 2 }); // Transaction::new: a single-event transaction carries the flag (no commit record)
         let old_value = ws.sync_tx.value;
         let old_chan = ws.sync_tx.chan;
+        let old_segment = ws.bucket_segment_id;
         unsafe { HW_STARTED_AT = None; HW_CALLS = 0; REPLIES = 0; REPLY = None; NEXT_CHANNEL = 1; }
-        let rolled = write_offset as usize + events_size > seg;
-        kani::cover!(rolled, "reachable: the request rolls the segment over");
-        ack_handoff_slice(&mut ws, write_offset, events_size, ReplyTx, Uuid(1), 1, Uuid(2), 1, 1, 0, Lsv, Batch { confirmation_count: 1 });
-        assert!(unsafe { REPLIES } == 1 && unsafe { HW_CALLS } == 1, "exactly one reply, exactly one write attempt");
+        ack_handoff_slice(&mut ws, events, tx, ReplyTx, Uuid(1), 1, 1, 0, Lsv, Batch { confirmation_count: 1 });
+        let rolled = ws.bucket_segment_id != old_segment;
+        assert!(unsafe { REPLIES } == 1 && unsafe { HW_CALLS } <= 1, "exactly one reply, at most one write attempt");
+        if unsafe { HW_CALLS } == 0 {
+            // rejected before anything was written (the transaction does not fit a segment, units/U19): nothing changes
+            kani::cover!(true, "reachable: rejected as larger than a segment");
+            assert!(matches!(unsafe { REPLY.unwrap() }, Err(())) && !rolled && ws.writer.write_offset == write_offset && ws.sync_tx.value == old_value);
+            return;
+        }
         let started = unsafe { HW_STARTED_AT.unwrap() };
+        kani::cover!(rolled, "reachable: the request rolls the segment over");
         assert!(started == if rolled { SEGMENT_HEADER_SIZE as u64 } else { write_offset }, "the write starts at the live segment's write offset (after the rollover, if any)");
         match unsafe { REPLY.unwrap() } {
             Ok((wo, chan)) => {
